@@ -216,6 +216,7 @@ PROPS["C01"] = {
     "outside_bound": ["more than 2 clients or 2 operations each", "preemption bound above 1 (RBMutex harness: 2)", "timer ticks during the history"],
     "quick": [H("ZZ_C01_Linearizable", params={"PRE": 0}, reach=["history-complete"], bounds="2x2 ops, cap 1, preemptions 0"),
               H("ZZ_C01_Linearizable", params={"PRE": 0, "POOL": 1}, reach=["history-complete"], bounds="entry pool on"),
+              H("ZZ_C01_Linearizable", params={"PRE": 0, "POOL": 1, "PRELUDE": 1}, reach=["history-complete"], bounds="entry pool on and holding a recycled entry"),
               H("ZZ_C01_Linearizable", params={"PRE": 0, "LOADING": 1}, reach=["history-complete"], bounds="loading cache"),
               H("ZZ_C01_Linearizable", params={"PRE": 0, "DOOR": 1}, reach=["history-complete"], bounds="doorkeeper on"),
               H("ZZ_C13_LoadingWithWriter", params={"PRE": 1}, reach=["both-finished"], bounds="loading Get vs Set/Delete of the same key: load-and-store atomic with respect to writers"),
@@ -223,6 +224,7 @@ PROPS["C01"] = {
               H("ZZ_C01_RBMutex", params={"READERS": 2, "PRE": 2}, reach=["all-done"], bounds="1 writer, 2 readers, atomic granularity, preemptions 2")],
     "thorough": [H("ZZ_C01_Linearizable", params={"PRE": 1}, reach=["history-complete"], bounds="2x2 ops, cap 1, preemptions 1"),
                  H("ZZ_C01_Linearizable", params={"PRE": 0, "POOL": 1, "POOLMODE": 2}, reach=["history-complete"], bounds="entry pool on, adversarial reuse"),
+                 H("ZZ_C01_Linearizable", params={"PRE": 1, "POOL": 1, "POOLMODE": 2, "PRELUDE": 1}, reach=["history-complete"], bounds="entry pool holding a recycled entry, adversarial reuse, preemptions 1"),
                  H("ZZ_C01_Linearizable", params={"PRE": 0, "LOADING": 1}, reach=["history-complete"]),
                  H("ZZ_C01_Linearizable", params={"PRE": 0, "DOOR": 1}, reach=["history-complete"]),
                  H("ZZ_C01_Linearizable", params={"PRE": 0, "CAP": 2}, reach=["history-complete"]),
